@@ -462,6 +462,8 @@ func ErrClass(err error) string {
 		return "err:closed" // an operation on a file that was already closed (also when joined with a context error)
 	case errors.Is(err, context.Canceled):
 		return "canceled"
+	case errors.Is(err, context.DeadlineExceeded):
+		return "deadline" // the error of a context that ended by its deadline
 	case errors.Is(err, decoders.ErrAmmoLimit):
 		return "err:limit"
 	case errors.Is(err, decoders.ErrPassLimit):
@@ -497,7 +499,47 @@ func ObservePre(b *Built, consumers int, maxItems int) Obs {
 
 // ObserveMode is Observe (pre = false) / ObservePre (pre = true, cancelAfter ignored).
 func ObserveMode(b *Built, consumers int, cancelAfter int, maxItems int, pre bool) Obs {
-	ctx, cancel := context.WithCancel(context.Background())
+	return ObserveOpt(b, consumers, cancelAfter, maxItems, ObsOpts{Pre: pre})
+}
+
+// ObsOpts: how the run context ends. Pre: it is already done when Run is called. Deadline: it ends the
+// way a context with a deadline does (Err() = context.DeadlineExceeded) instead of by cancellation.
+type ObsOpts struct {
+	Pre      bool
+	Deadline bool
+}
+
+// endCtx is a context that is ended by calling end(): Done() is closed and Err() is err from then on.
+type endCtx struct {
+	context.Context
+	done chan struct{}
+	once sync.Once
+	err  error
+}
+
+func (c *endCtx) Done() <-chan struct{} { return c.done }
+func (c *endCtx) Err() error {
+	select {
+	case <-c.done:
+		return c.err
+	default:
+		return nil
+	}
+}
+func (c *endCtx) end() { c.once.Do(func() { close(c.done) }) }
+
+func newEndCtx(deadline bool) (context.Context, func()) {
+	if !deadline {
+		return context.WithCancel(context.Background())
+	}
+	c := &endCtx{Context: context.Background(), done: make(chan struct{}), err: context.DeadlineExceeded}
+	return c, c.end
+}
+
+// ObserveOpt is Observe with the way the context ends chosen by opts.
+func ObserveOpt(b *Built, consumers int, cancelAfter int, maxItems int, opts ObsOpts) Obs {
+	pre := opts.Pre
+	ctx, cancel := newEndCtx(opts.Deadline)
 	defer cancel()
 	runDone := make(chan string, 1)
 	startRun := func() {
